@@ -246,13 +246,14 @@ where
             _ => {
                 let mut updated = false;
                 let mut offset = 0;
+                let origlen = self.array.len();
                 for item in other.iter() {
                     if self.sorted && other.sorted {
-                        //optimisation if both are sorted
-                        match self.array[offset..].binary_search(&item) {
-                            Ok(index) => offset = index + 1,
+                        //optimisation if both are sorted (only search the original, sorted, part)
+                        match self.array[offset..origlen].binary_search(&item) {
+                            Ok(index) => offset += index + 1,
                             Err(index) => {
-                                offset = index + 1;
+                                offset += index;
                                 updated = true;
                                 self.add_unchecked(item);
                             }
